@@ -425,6 +425,8 @@ func runC08(c *Ctx) {
 	c.AtLeast("R5", "fill-until-full reads", nFull, 1)
 
 	emptyShortcutRule(c, "R7")
+	c08SmudgePassesAllNonPointers(c)
+	c08BlankLines(c)
 
 	// ---- R6: smudge pass-through ------------------------------------------------------------------
 	for _, name := range []string{"smudge", "delayedSmudge"} {
@@ -493,4 +495,124 @@ var c08Canaries = []Canary{
 	{Name: "blank-is-empty", ExpectKey: "C08.R7#DecodeFrom:empty-only-for-zero-bytes", Edits: []Edit{{File: "lfs/pointer.go", Find: "	if len(buf) == 0 {\n		return EmptyPointer(), contents, nil\n	}\n\n	p, err := decodeKV(bytes.TrimSpace(buf))", Repl: "	data := bytes.TrimSpace(buf)\n	if len(data) == 0 {\n		return EmptyPointer(), contents, nil\n	}\n\n	p, err := decodeKV(data)"}}},
 	{Name: "blob-cutoff-gt", ExpectKey: "C08.R3", Edits: []Edit{{File: "lfs/pointer.go", Find: "	if b.Size >= blobSizeCutoff {", Repl: "	if b.Size > blobSizeCutoff {"}}},
 	{Name: "publish-before-verdict", ExpectKey: "C08.R2", Edits: []Edit{{File: "commands/command_clean.go", Find: "		_, err = to.Write(errors.GetContext(err, \"bytes\").([]byte))\n		return nil, err", Repl: "		_, err = to.Write(errors.GetContext(err, \"bytes\").([]byte))\n		if err != nil {\n			return nil, err\n		}"}}},
+}
+
+// c08SmudgePassesAllNonPointers (R6, every parse failure): smudge passes its input through unchanged whenever the
+// input does not decode as a pointer — whatever the reason the decoder gives (not a pointer at all, a look-alike
+// with a bad oid, size or version). Decided: on the branch taken when DecodeFrom returns an error, every return of
+// smudge / delayedSmudge comes after the pass-through copy.
+func c08SmudgePassesAllNonPointers(c *Ctx) {
+	p := c.P
+	for _, name := range []string{"smudge", "delayedSmudge"} {
+		fn := p.Fn("commands", name)
+		if fn == nil {
+			c.Missing("R6", "commands."+name, "not found")
+			continue
+		}
+		n := 0
+		for _, b := range fn.Blocks {
+			ifi, ok := lastInstr(b).(*ssa.If)
+			if !ok {
+				continue
+			}
+			e, trueMeansNil, isChk := IsErrNilCheck(ifi.Cond)
+			if !isChk {
+				continue
+			}
+			cc, idx, isRes := CallResult(e)
+			if !isRes || CalleeName(cc.Common()) != "lfs.DecodeFrom" || idx != 2 {
+				continue
+			}
+			n++
+			entry := b.Succs[0]
+			if trueMeansNil {
+				entry = b.Succs[1]
+			}
+			good := true
+			where := ""
+			for _, ex := range RunCount(CountQuery{Fn: fn, Entry: entry, Event: func(in ssa.Instruction) CSet {
+				if sc := AsCall(in); sc != nil && nameIn(CalleeName(sc), []string{"tools.Spool", "io.Copy"}) {
+					return C1
+				}
+				return 0
+			}, NoRet: noReturnCommands}) {
+				if ex.Kind == "return" && ex.Set&C0 != 0 {
+					// leaving because the status line could not be written to Git (broken pipe) is an environment
+					// fault, not a decision about the content
+					if r, ok := ex.Instr.(*ssa.Return); ok && len(r.Results) > 0 {
+						if cc, _, isRes := CallResult(r.Results[len(r.Results)-1]); isRes && strings.HasSuffix(CalleeName(cc.Common()), ".WriteStatus") {
+							continue
+						}
+					}
+					good = false
+					where = ex.Desc(p)
+				}
+			}
+			c.Check(good, "R6", name+":every-parse-failure-is-passed-through", p.InstrPos(ifi), "whenever the input does not decode as a pointer it is copied to the output before returning",
+				name+" can return for input that failed to decode as a pointer without copying it to the output ("+where+"): content that merely looks like a pointer (bad oid, size or version line) is replaced by nothing")
+		}
+		c.AtLeast("R6", "decode-failure branches in "+name, n, 1)
+	}
+}
+
+// c08BlankLines (R4, what still counts as a pointer): the decoder accepts — as a non-canonical pointer, passed
+// through untouched by clean — pointer text with empty lines between its keys. The key/value split of a line runs
+// only for non-empty lines; dropping the skip turns such files into "not a pointer", and clean wraps them in a new
+// pointer.
+func c08BlankLines(c *Ctx) {
+	p := c.P
+	fn := p.Fn("lfs", "decodeKVData")
+	if fn == nil {
+		c.Missing("R4", "lfs.decodeKVData", "not found")
+		return
+	}
+	n := 0
+	for _, ci := range CallsIn(fn, "strings.SplitN", "strings.Split", "strings.Cut", "strings.Fields") {
+		args := CallArgs(ci.Common())
+		line := args[0]
+		cc, _, isRes := CallResult(line)
+		if !isRes || CalleeName(cc.Common()) != "(*bufio.Scanner).Text" {
+			continue
+		}
+		n++
+		pass := PassEdges(fn, func(cond ssa.Value) (bool, bool) {
+			op, x, y, ok := BinCmp(cond)
+			if !ok {
+				return false, false
+			}
+			isLenLine := func(v ssa.Value) bool {
+				lc, ok := v.(*ssa.Call)
+				if !ok {
+					return false
+				}
+				bi, ok := lc.Call.Value.(*ssa.Builtin)
+				return ok && bi.Name() == "len" && Unwrap(lc.Call.Args[0]) == Unwrap(line)
+			}
+			if isLenLine(x) {
+				if k, isK := ConstInt(y); isK && k == 0 {
+					switch op {
+					case token.EQL:
+						return false, true
+					case token.NEQ, token.GTR:
+						return true, true
+					}
+				}
+			}
+			if Unwrap(x) == Unwrap(line) {
+				if s, isS := ConstString(y); isS && s == "" {
+					return op == token.NEQ, true
+				}
+			}
+			return false, false
+		})
+		l := LoopOf(Loops(fn), ci.Block())
+		entry := fn.Blocks[0]
+		if l != nil {
+			entry = l.Body
+		}
+		g, path := Guarded(entry, ci, pass, nil)
+		c.Check(g && nonVacuous(pass), "R4", fmt.Sprintf("decodeKVData:blank-lines-skipped#%d", n), p.InstrPos(ci), "a line is split into key and value only when it is not empty",
+			"empty lines are no longer skipped by the pointer decoder: a pointer file with a blank line between its keys stops being recognised as a pointer, and clean stores it and emits a pointer to the pointer: "+path)
+	}
+	c.AtLeast("R4", "line splits in decodeKVData", n, 1)
 }
